@@ -237,7 +237,7 @@ func dlCase(root string, id int, seed uint64, nops int, handoff bool) (out caseO
 			ref = dump(rawB)
 			out.emit("dlref", resB+" "+ref)
 		}
-		out.emit("dlstate", after)
+		out.emit("dlstate after "+res+" "+o.tokens(0), after)
 		if res == "error" {
 			nFail++
 			if after == last {
